@@ -234,6 +234,9 @@ def c07_programs(rng, n):
     # a callback whose endmarker is None (what RSync and MultiChannel queues use): the end of a failing conversation is still delivered
     out.append(prog([("u1", [("remote_exec", "c", 1), ("setcallback", "c", "none"), ("waitclose", "c"), ("sleep", 1), ("hasreceiver",)])],
                     {1: [("send", "channel", 201), ("raise",)]}))
+    # the failing conversation consumed by iteration only (for item in channel): the loop must not end as if the channel had been closed normally
+    out.append(prog([("u1", [("remote_exec", "c", 1), ("iterate", "c"), ("hasreceiver",)])], {1: [("send", "channel", 201), ("send", "channel", 202), ("raise",)]}))
+    out.append(prog([("u1", [("remote_exec", "c", 1), ("iterate", "c"), ("waitclose", "c"), ("hasreceiver",)])], {1: [("raise",)]}))
     # the failing initiator-side channel was dropped
     out.append(prog([("u1", [("remote_exec", "c", 1), ("setcallback", "c", False, 201), ("drop", "c"), ("remote_exec", "e", 2), ("receive_all", "e"), ("hasreceiver",)])],
                     {1: [("send", "channel", 201), ("send", "channel", 202)], 2: [("send", "channel", 221)]}))
